@@ -116,6 +116,9 @@ def damages(rng, s, tier):
         isz = 16 + 8 * s['t'] + 8 * s['k']
         out.append(('idx-extra-item', L, I + I[-2 * isz:]))
         out.append(('idx-extra-zero', L, I + '00' * isz))
+        # a complete index followed by part of one more item (what a torn index append leaves)
+        for r in (range(1, isz) if tier == 'thorough' else (1, isz // 2, isz - 1)):
+            out.append(('idx-extra-bytes+%d' % r, L, I + (I[-2 * isz:] if rng.random() < 0.5 else codec.rnd_bytes(rng, isz))[:2 * r]))
     return out
 
 
